@@ -33,24 +33,31 @@ TRIVIA = [("WS", r"\s+", False), ("LINE_COMMENT", r"//[^\n]*", False), ("BLOCK_O
 # inside a block comment (C style): everything up to and including the first "*/"
 
 
+_COMPILED = None
+
+
+def _compiled():
+    """each documented pattern followed by its boundary requirement as a lookahead.  Every pattern of the table has a
+    unique or longest preferred match under backtracking (checked symbolically by rxvc.ref_picks), so `match` returns
+    the longest admissible candidate."""
+    global _COMPILED
+    if _COMPILED is None:
+        import re
+        _COMPILED = [(t, re.compile("(?:%s)%s" % (p, r"(?!\w)" if wb else ""))) for t, p, wb in TOKENS + TRIVIA]
+    return _COMPILED
+
+
 def scan(text):
     """executable reference scanner: returns ('ok', [(type, value), ...]) or ('reject', index)"""
-    import re
     toks = []
     i, n = 0, len(text)
-    word = re.compile(r"\w")
-    comp = [(t, re.compile(p), wb) for t, p, wb in TOKENS + TRIVIA]
+    comp = _compiled()
     while i < n:
         best = None
-        for t, cre, wb in comp:
-            # all prefixes of text[i:] in L(t): collect the longest admissible one
-            j_best = None
-            for j in range(n, i, -1):
-                if cre.fullmatch(text, i, j) and (not wb or j == n or not word.match(text[j])):
-                    j_best = j
-                    break
-            if j_best is not None and (best is None or j_best > best[1]):
-                best = (t, j_best)
+        for t, cre in comp:
+            m = cre.match(text, i)
+            if m is not None and m.end() > i and (best is None or m.end() > best[1]):
+                best = (t, m.end())
         if best is None:
             return ("reject", i)
         t, j = best
